@@ -245,7 +245,9 @@ private:
         }
         if (rounds > 1) return TR::Unspec("recursion-deduction-rounds");
         if (e.id == TID::NT_RECURSIVE_FULL) { TR c = ty(*e.kids[2], &e); if (!c.ok()) return c; }
-        endScope(); return TR::Ok(it.t);
+        endScope();
+        // the value is the initial one when no iteration is made: the result type covers both (R{a:=S2|1=2|∅} is a set of pairs)
+        { auto m = merge(init.t, it.t); if (!m) return TR::Rej("types-not-equal"); return TR::Ok(*m); }
       }
       case TID::DECART: {
         std::vector<Ty> fs;
